@@ -83,7 +83,7 @@ class C06(F.Spec):
             elif a == "unknown":
                 ops.append("msg 110 " + set_value(rng.randint(1, 1 << 20), rng.choice([n, 9, 200, 255, 255]), 0, [1]).hex())
             elif a == "group":
-                ops.append("msg 115 " + group_value(rng.randint(1, 1 << 20), 5, 1, ch, rng.choice([0, 0, 300, 1000, 5000]),
+                ops.append("msg 115 " + group_value(rng.randint(1, 1 << 20), rng.choice([0, 1, 2, 5, 256]), 1, ch, rng.choice([0, 0, 300, 1000, 5000]),
                                                       [rng.choice([0, 1, 1])]).hex())
             elif a == "button" and ch < ni:
                 pin = 9 + ch
